@@ -53,6 +53,9 @@ def run(ctx: Ctx):
 
     dependency_footprints(ctx)
     range_collapse(ctx)
+    from .common import rebuild_forwards_settings
+
+    rebuild_forwards_settings(ctx, "rebuild-settings", "cube.py", "Cube", ("mask_size",))
 
 
 # --------------------------------------------------------------------------- layouts
